@@ -174,7 +174,7 @@ def ev_coq(e):
 # ---------------------------------------------------------------- programs
 def prog_request(prog, events):
     return {"mode": "sase",
-            "steps": [{"ty": s["ty"], "alias": s["alias"], "all": s["all"], "pred": p_json(s["pred"])} for s in prog["steps"]],
+            "steps": [{"ty": s["ty"], "alias": s["alias"], "all": s["all"], "pred": p_json(s["pred"]), "not": bool(s.get("not"))} for s in prog["steps"]],
             "negs": [{"ty": n["ty"], "pred": p_json(n["pred"])} for n in prog["negs"]],
             "partition": prog["partition"], "max_runs": prog["max_runs"],
             "strategy": prog["strategy"] if not isinstance(prog["strategy"], tuple) else {"sample": list(prog["strategy"][1:])},
@@ -201,7 +201,7 @@ def prog_vpl(prog):
     """VPL text of the same program (steps with aliases; filters as .where on the step)."""
     parts = []
     for i, s in enumerate(prog["steps"]):
-        t = ("all " if s["all"] else "") + s["ty"] + (" as " + s["alias"] if s["alias"] else "")
+        t = ("all " if s["all"] else "NOT " if s.get("not") else "") + s["ty"] + (" as " + s["alias"] if s["alias"] else "")
         if s["pred"] is not None:
             t += " .where(%s)" % p_vpl(s["pred"])
         parts.append(t)
